@@ -125,6 +125,7 @@ type c16ContractSpec struct {
 	Events  []manifest.Event
 	Perms   []manifest.Permission
 	Groups  []*keys.PrivateKey
+	Tokens  []nef.MethodToken // method tokens of the NEF (targets of the CALLT opcode)
 }
 
 func c16Key(i int) *keys.PrivateKey {
@@ -165,6 +166,10 @@ func c16Build(sender util.Uint160, s c16ContractSpec) *neotest.Contract {
 	ne, err := nef.NewFile(script)
 	if err != nil {
 		panic(err)
+	}
+	if len(s.Tokens) > 0 {
+		ne.Tokens = s.Tokens
+		ne.Checksum = ne.CalculateChecksum()
 	}
 	h := state.CreateContractHash(sender, ne.Checksum, m.Name)
 	for _, k := range s.Groups {
